@@ -603,6 +603,8 @@ def gen_legacy_case(r, tier):
         sc["N"] = r.randint(10, 24)          # Na = int(0.1*N) must be >= 1 (documented use is N >> 10)
     else:
         sc["N"] = r.randint(1, 14)
+    if r.random() < 0.08 and sc["kind"] in ("MH", "CWMH", "pCN", "ULA", "MALA", "LinearRTO"):
+        sc["N"] = r.randint(190, 420)        # long chains: progress-display arithmetic (Ns//100) changes regime at 200
     sc["Nb"] = r.choice([0, 0, 1, 3, 6])
     if sc["kind"] == "NUTS" and sc["knobs"].get("adapt_step_size") is True and sc["Nb"] == 0:
         sc["Nb"] = 2
